@@ -69,7 +69,7 @@ type node struct {
 	lit     string // literal text as written in the schema (scalars, shortcuts)
 	val     interface{}
 	rules   []rule
-	note    string // "" = no note
+	note    string   // "" = no note
 	keys    []string // schema key texts WITH quotes
 	dkeys   []string // decoded keys
 	kids    []*node
@@ -116,7 +116,7 @@ var notePool = []string{"a note", "note only", "identifier of the thing", "see d
 type gen struct {
 	r        *rand.Rand
 	defect   string // planted defect kind, "" = none
-	refsOK   bool // the schema being generated may mention @t / @u
+	refsOK   bool   // the schema being generated may mention @t / @u
 	features map[string]bool
 }
 
@@ -639,6 +639,9 @@ type spell struct {
 	shuffle  bool     // rule order inside every rule object is shuffled
 	notes    string   // keep drop change add
 	applied  []string
+	// tailClean: nothing follows the last token of the schema (no comment, no line end): C14 needs the exact end.
+	tailClean bool
+	lastAnn   string // form of the annotation printed last: "inline" / "multi"
 }
 
 func baseSpell() *spell {
@@ -891,6 +894,10 @@ func (sp *spell) annotation(n *node, depth int) string {
 		return ""
 	}
 	multi := sp.chance(sp.multi)
+	sp.lastAnn = "inline"
+	if multi {
+		sp.lastAnn = "multi"
+	}
 	var body string
 	if len(n.rules) > 0 {
 		body = sp.ruleSet(n.rules, multi, depth)
@@ -918,8 +925,11 @@ func (sp *spell) annotation(n *node, depth int) string {
 
 // printer collects the lines of one schema text.
 type printer struct {
-	sp    *spell
-	lines []string
+	sp          *spell
+	lines       []string
+	lastComment string
+	pending     string
+	pendingAt   int
 }
 
 // compactText prints a rule-free subtree on one line (the same in every spelling).
@@ -944,7 +954,15 @@ func compactText(n *node) string {
 func (p *printer) emit(depth int, content string) {
 	sp := p.sp
 	p.lines = append(p.lines, sp.between(depth)...)
-	p.lines = append(p.lines, sp.ind(depth)+content+sp.endComment())
+	p.lines = append(p.lines, sp.ind(depth)+content)
+	p.lastComment = sp.endComment()
+	if !sp.tailClean {
+		p.lines[len(p.lines)-1] += p.lastComment
+	} else if len(p.lines) > 1 && p.pending != "" {
+		// tailClean: the comment of a line is attached once a later line exists, so the last line stays bare
+		p.lines[p.pendingAt] += p.pending
+	}
+	p.pending, p.pendingAt = p.lastComment, len(p.lines)-1
 }
 
 // node prints n; prefix = `"key": ` or "", comma = "," or "".
@@ -1000,7 +1018,9 @@ func (p *printer) node(n *node, depth int, prefix, comma string) {
 func (sp *spell) print(root *node) string {
 	p := &printer{sp: sp}
 	p.node(root, 0, "", "")
-	p.lines = append(p.lines, sp.between(0)...)
+	if !sp.tailClean {
+		p.lines = append(p.lines, sp.between(0)...)
+	}
 	var sb strings.Builder
 	for i, l := range p.lines {
 		if i > 0 {
@@ -1008,7 +1028,7 @@ func (sp *spell) print(root *node) string {
 		}
 		sb.WriteString(l)
 	}
-	if !sp.base && sp.r.Intn(3) == 0 {
+	if !sp.base && !sp.tailClean && sp.r.Intn(3) == 0 {
 		sb.WriteString(sp.eol())
 	}
 	return sb.String()
@@ -1526,8 +1546,8 @@ func validate(t texts, doc string) string {
 // One case = one abstract schema with its variants and documents
 
 type caseResult struct {
-	stats   []string
-	cases   []struct {
+	stats []string
+	cases []struct {
 		key string
 		nt  bool
 	}
@@ -1854,4 +1874,71 @@ func Run(args []string) {
 		}
 	}
 	rep.Finish()
+}
+
+// ---------------------------------------------------------------------------------------------------------
+// Export for c14-len: generated schema texts with a known last token.
+
+type SchemaText struct {
+	Root  string
+	Types map[string]string // name without '@' -> text
+	// End: what the text ends with: "bracket" (closing } or ] of the root), "quote", "number", "word"
+	// (true/false/null), "shortcut", "inline-annotation", "multiline-annotation".
+	End      string
+	Rewrites []string
+	Nodes    int
+}
+
+// GenSchemaText returns a generated schema (valid by construction, no planted defect) in a random spelling;
+// the text ends with its last token.
+func GenSchemaText(seed int64) SchemaText {
+	g := &gen{r: rand.New(rand.NewSource(seed)), features: map[string]bool{}}
+	r := g.r
+	types := typeTable{}
+	useTypes := r.Intn(3) != 0
+	if useTypes {
+		for _, nm := range typeOrder {
+			types[nm] = g.genNode(1, false, false)
+		}
+	}
+	g.refsOK = useTypes
+	root := g.genNode(r.Intn(3), false, useTypes)
+	if r.Intn(2) == 0 {
+		for try := 0; try < 8 && (root.compact || (root.kind != "obj" && root.kind != "arr") || len(root.kids) < 1); try++ {
+			root = g.genNode(1+r.Intn(2), false, useTypes)
+		}
+	}
+	sp := baseSpell()
+	if r.Intn(4) != 0 {
+		sp = variantSpell(rand.New(rand.NewSource(seed*31 + 5)))
+	}
+	sp.tailClean = true
+	out := SchemaText{Types: map[string]string{}, Rewrites: sp.applied}
+	_, out.Nodes = countAnnotated(root)
+	for _, nm := range typeOrder {
+		if n, ok := types[nm]; ok {
+			out.Types[nm] = baseSpell().print(n)
+		}
+	}
+	sp.lastAnn = ""
+	out.Root = sp.print(root)
+	switch {
+	case !root.compact && (root.kind == "obj" || root.kind == "arr") && len(root.kids) > 0:
+		out.End = "bracket"
+	case sp.lastAnn == "inline":
+		out.End = "inline-annotation"
+	case sp.lastAnn == "multi":
+		out.End = "multiline-annotation"
+	case root.kind == "obj" || root.kind == "arr":
+		out.End = "bracket"
+	case root.kind == "str":
+		out.End = "quote"
+	case root.kind == "int" || root.kind == "flt":
+		out.End = "number"
+	case root.kind == "ref":
+		out.End = "shortcut"
+	default:
+		out.End = "word"
+	}
+	return out
 }
